@@ -4,6 +4,7 @@ import CogentModel.Proofs.ViewInv
 import CogentModel.Proofs.ViewSem
 import CogentModel.Proofs.ViewParent
 import CogentModel.Proofs.ViewChain
+import CogentModel.Proofs.SeqWrap
 /-! # C01 — property theorems (views obey the slice algebra)
 
 `Inv` is the representation invariant of slice records, `elems v` the list of
@@ -265,5 +266,143 @@ example : specRun [0, 1, 2, 3, 4, 5, 6, 7, 8, 9]
     = some [1] := by rfl
 example : ∀ op ∈ [Op.slice (some 1) (some 8) (some 2), .slice none none (some (-1)), .slice (some 1) none none, .index (-1)],
     op.stepOk := by simp [Op.stepOk]
+
+/-! ## String level: the `Sequence` wrapper reads exactly as the plain string would
+
+`SeqWrap.Seq` (`Model/SeqWrap.lean`) carries the parent string, the view and whether the moltype
+is nucleic; `SeqWrap.str comp s` is `str(seq)` (complemented when the view is reversed on a nucleic
+acid), `comp` any involutive complement table. -/
+
+/-- DNA complement used in the examples below -/
+def dnaComp (c : Char) : Char :=
+  if c = 'A' then 'T' else if c = 'T' then 'A' else if c = 'C' then 'G' else if c = 'G' then 'C' else c
+
+theorem dnaComp_invol : ∀ x, dnaComp (dnaComp x) = x := by
+  intro x
+  unfold dnaComp
+  (repeat' split) <;> simp_all
+
+example : dnaComp 'A' = 'T' ∧ dnaComp 'N' = 'N' := by decide
+
+/-- a wrapper built from a plain string is well formed -/
+theorem seq_wf_ofString (t : List Char) (nucleic : Bool) : SeqWrap.WF (SeqWrap.ofString t nucleic) :=
+  SeqWrap.wf_ofString t nucleic
+
+example : (SeqWrap.ofString "ACGGTA".toList true).v = { start := 0, stop := 6, step := 1, offset := 0, seqLen := 6 } := by rfl
+
+/-- slicing preserves well-formedness (including the `_zero_slice` branch, whose parent is `""`) -/
+theorem seq_wf_getitem (s s' : SeqWrap.Seq) (a b c : Option Int) (h : SeqWrap.WF s)
+    (hw : SeqWrap.getitem s a b c = .ok s') : SeqWrap.WF s' ∧ s'.nucleic = s.nucleic :=
+  SeqWrap.wf_getitem s s' a b c h hw
+
+example : SeqWrap.getitem (SeqWrap.ofString "ACGGTA".toList true) (some 2) (some 2) none
+    = .ok { parent := [], v := zeroSlice, nucleic := true } := by decide
+
+/-- integer indexing preserves well-formedness -/
+theorem seq_wf_getitem_int (s s' : SeqWrap.Seq) (i : Int) (h : SeqWrap.WF s)
+    (hw : SeqWrap.getitemI s i = .ok s') : SeqWrap.WF s' ∧ s'.nucleic = s.nucleic :=
+  SeqWrap.wf_getitemI s s' i h hw
+
+example : SeqWrap.getitemI (SeqWrap.ofString "ACGGTA".toList true) (-2)
+    = .ok { parent := "ACGGTA".toList, v := { start := 4, stop := 5, step := 1, offset := 0, seqLen := 6 }, nucleic := true } := by decide
+
+/-- `rc` preserves well-formedness -/
+theorem seq_wf_rc (s : SeqWrap.Seq) (h : SeqWrap.WF s) :
+    SeqWrap.WF (SeqWrap.rc s) ∧ (SeqWrap.rc s).nucleic = s.nucleic :=
+  SeqWrap.wf_rc s h
+
+example : (SeqWrap.rc (SeqWrap.ofString "ACGGTA".toList true)).v
+    = { start := -1, stop := -7, step := -1, offset := 0, seqLen := 6 } := by decide
+
+/-- the raw string of the view is the parent read at the displayed positions -/
+theorem value_eq_elems (s : SeqWrap.Seq) (h : SeqWrap.WF s) :
+    SeqWrap.value s = (elems s.v).map (fun i => s.parent[i.toNat]!) :=
+  SeqWrap.value_eq_elems' s h
+
+example : SeqWrap.value { parent := "ACGGTA".toList, v := { start := -1, stop := -7, step := -2, offset := 0, seqLen := 6 }, nucleic := true }
+    = "AGC".toList := by decide
+
+/-- **`str(seq[a:b:c])` is `str(seq)[a:b:c]`, complemented when `c < 0` on a nucleic acid.** -/
+theorem str_getitem (comp : Char → Char) (hcomp : ∀ x, comp (comp x) = x) (s s' : SeqWrap.Seq)
+    (a b c : Option Int) (h : SeqWrap.WF s) (hc : c ≠ some 0) (hw : SeqWrap.getitem s a b c = .ok s') :
+    SeqWrap.str comp s' = SeqWrap.specSlice comp s.nucleic (SeqWrap.str comp s) a b (c.getD 1) :=
+  SeqWrap.str_getitem' comp hcomp s s' a b c h hc hw
+
+example : (SeqWrap.getitem (SeqWrap.ofString "ACGGTA".toList true) (some 4) none (some (-2))).toOption.map (SeqWrap.str dnaComp)
+    = some "ACT".toList := by decide
+example : SeqWrap.specSlice dnaComp true "ACGGTA".toList (some 4) none (-2) = "ACT".toList := by decide
+
+/-- `str(seq[i])` is the one-character string `str(seq)[i]`; `IndexError` exactly when Python raises it -/
+theorem str_getitem_int (comp : Char → Char) (s : SeqWrap.Seq) (i : Int) (h : SeqWrap.WF s) :
+    (∀ s', SeqWrap.getitemI s i = .ok s' →
+      ∃ ch, PySlice.index (SeqWrap.str comp s) i = some ch ∧ SeqWrap.str comp s' = [ch]) ∧
+    (∀ e, SeqWrap.getitemI s i = .error e → PySlice.index (SeqWrap.str comp s) i = none) :=
+  SeqWrap.str_getitemI' comp s i h
+
+example : (SeqWrap.getitemI (SeqWrap.rc (SeqWrap.ofString "ACGGTA".toList true)) 1).toOption.map (SeqWrap.str dnaComp)
+    = some "A".toList := by decide
+example : SeqWrap.getitemI (SeqWrap.ofString "ACGGTA".toList true) 6 = .error .indexError := by decide
+
+/-- `len(seq[a:b:c])` (both `len(str(…))` and the view's `__len__`) is the length of the Python slice -/
+theorem len_getitem (comp : Char → Char) (hcomp : ∀ x, comp (comp x) = x) (s s' : SeqWrap.Seq)
+    (a b c : Option Int) (h : SeqWrap.WF s) (hc : c ≠ some 0) (hw : SeqWrap.getitem s a b c = .ok s') :
+    (SeqWrap.str comp s').length = (PySlice.slice (SeqWrap.str comp s) a b (c.getD 1)).length ∧
+    SeqWrap.length s' = ((SeqWrap.str comp s').length : Int) := by
+  constructor
+  · rw [SeqWrap.str_getitem' comp hcomp s s' a b c h hc hw]
+    unfold SeqWrap.specSlice
+    simp only []
+    split
+    · rw [List.length_map]
+    · rfl
+  · have hwf := (SeqWrap.wf_getitem s s' a b c h hw).1
+    rw [SeqWrap.str_length comp s' hwf]
+    unfold SeqWrap.length
+    rw [Int.toNat_of_nonneg (len_nonneg s'.v)]
+
+example : (SeqWrap.getitem (SeqWrap.ofString "ACGGTA".toList false) (some (-5)) none (some 3)).toOption.map SeqWrap.length
+    = some 2 := by decide
+
+/-- **`str(seq.rc())` is the reverse complement of `str(seq)`** (nucleic acids) -/
+theorem str_rc (comp : Char → Char) (hcomp : ∀ x, comp (comp x) = x) (s : SeqWrap.Seq)
+    (h : SeqWrap.WF s) (hn : s.nucleic = true) :
+    SeqWrap.str comp (SeqWrap.rc s) = SeqWrap.specRc comp (SeqWrap.str comp s) :=
+  SeqWrap.str_rc' comp hcomp s h hn
+
+example : SeqWrap.str dnaComp (SeqWrap.rc (SeqWrap.ofString "ACGGTA".toList true)) = "TACCGT".toList := by decide
+
+/-- `rc` twice reads as the original -/
+theorem rc_rc (comp : Char → Char) (hcomp : ∀ x, comp (comp x) = x) (s : SeqWrap.Seq)
+    (h : SeqWrap.WF s) (hn : s.nucleic = true) :
+    SeqWrap.str comp (SeqWrap.rc (SeqWrap.rc s)) = SeqWrap.str comp s :=
+  SeqWrap.rc_rc' comp hcomp s h hn
+
+example : SeqWrap.str dnaComp (SeqWrap.rc (SeqWrap.rc (SeqWrap.ofString "ACGGTA".toList true))) = "ACGGTA".toList := by decide
+
+/-- **Any chain of slice / index / rc operations of any depth on the wrapper reads exactly as the
+same chain of plain-string operations on `str(seq)`** (slices with a negative step and `rc`
+complement on nucleic acids); the result stays well formed. -/
+theorem seq_chain_spec (comp : Char → Char) (hcomp : ∀ x, comp (comp x) = x) (ops : List SeqWrap.SOp)
+    (s s' : SeqWrap.Seq) (h : SeqWrap.WF s) (hops : ∀ op ∈ ops, SeqWrap.SOp.ok s.nucleic op)
+    (hw : SeqWrap.runOps s ops = .ok s') :
+    SeqWrap.specRun comp s.nucleic (SeqWrap.str comp s) ops = some (SeqWrap.str comp s') ∧ SeqWrap.WF s' :=
+  (SeqWrap.runOps_spec comp hcomp ops s h hops).1 s' hw
+
+example : (SeqWrap.runOps (SeqWrap.ofString "ACGGTAAC".toList true)
+    [.slice (some 1) none (some 2), .rc, .slice none (some (-1)) none, .index (-1)]).toOption.map (SeqWrap.str dnaComp)
+    = some "C".toList := by decide
+example : SeqWrap.specRun dnaComp true "ACGGTAAC".toList
+    [.slice (some 1) none (some 2), .rc, .slice none (some (-1)) none, .index (-1)] = some "C".toList := by decide
+
+/-- a chain on the wrapper raises exactly where Python's string indexing raises `IndexError` -/
+theorem seq_chain_error_spec (comp : Char → Char) (hcomp : ∀ x, comp (comp x) = x) (ops : List SeqWrap.SOp)
+    (s : SeqWrap.Seq) (e : Err) (h : SeqWrap.WF s) (hops : ∀ op ∈ ops, SeqWrap.SOp.ok s.nucleic op)
+    (hw : SeqWrap.runOps s ops = .error e) :
+    SeqWrap.specRun comp s.nucleic (SeqWrap.str comp s) ops = none :=
+  (SeqWrap.runOps_spec comp hcomp ops s h hops).2 e hw
+
+example : SeqWrap.runOps (SeqWrap.ofString "ACGGTAAC".toList true) [.slice (some 1) none (some 2), .rc, .index 4]
+    = .error .indexError ∧
+    SeqWrap.specRun dnaComp true "ACGGTAAC".toList [.slice (some 1) none (some 2), .rc, .index 4] = none := by decide
 
 end CogentModel.C01
